@@ -9,6 +9,7 @@ CONSTANTS MaxLinks = 2
  DiscardVi = "link"
  Streaming = TRUE
  PinSer = TRUE
+ PinBos = FALSE
  PLen = 2
  ReadLens = {100}
  MaxCalls = 14
